@@ -401,15 +401,22 @@ func c14Gen(t *rapid.T) (c c14Case, commentsAfterReq int) {
 			if kv.V == "" {
 				kv.V = "v"
 			}
+			if rapid.IntRange(0, 40).Draw(t, fmt.Sprintf("longv%d.%d", i, j)) == 0 {
+				kv.V = strings.Repeat("long-value;", rapid.SampledFrom([]int{380, 500, 3000}).Draw(t, fmt.Sprintf("longn%d.%d", i, j)))
+			}
 			tg.Headers = append(tg.Headers, kv)
 		}
 		if rapid.IntRange(0, 2).Draw(t, fmt.Sprintf("hasbody%d", i)) == 0 {
 			tg.HasBody = true
-			switch rapid.IntRange(0, 3).Draw(t, fmt.Sprintf("bk%d", i)) {
+			switch rapid.IntRange(0, 4).Draw(t, fmt.Sprintf("bk%d", i)) {
 			case 0:
 				tg.Body = []byte{}
 			case 1:
 				tg.Body = []byte(fmt.Sprintf("{\"target\":%d}\n", i))
+			case 2:
+				// bodies that make the JSON line longer than the usual 4 KiB / 64 KiB reader buffers
+				n := rapid.SampledFrom([]int{3000, 3072, 4096, 5000, 20000, 70000}).Draw(t, fmt.Sprintf("bn%d", i))
+				tg.Body = bytes.Repeat([]byte{byte('a' + i%26), 0xff, '\n'}, n/3)
 			default:
 				tg.Body = rapid.SliceOfN(rapid.Byte(), 1, 40).Draw(t, fmt.Sprintf("b%d", i))
 			}
@@ -542,7 +549,16 @@ func TestC14Targets(t *testing.T) {
 		if c.CRLF {
 			labels = append(labels, "crlf")
 		}
+		for _, l := range c.JSON {
+			if len(l) > 4096 {
+				labels = append(labels, "json-line>4KiB")
+				break
+			}
+		}
 		sig, _ := json.Marshal(c)
+		if len(sig) > 4000 {
+			sig = []byte(fmt.Sprintf("%x", vhHash(sig)))
+		}
 		vh.Case("C14.targets", string(sig), nt, labels...)
 		vh.Sample("C14.targets", nt && len(c.Targets) <= 3, map[string]any{"http": c.Lines, "json": c.JSON, "defaults": c.DefaultHdr})
 		var err error
